@@ -1253,7 +1253,7 @@ impl TieredEngine {
         // Step 1: Search Layer 2 (Hot Tier) - recent writes
         // Over-fetch by 2× to ensure good candidates after merging
         let hot_results =
-            self.filter_hot_knn_results_to_canonical(self.hot_tier.knn_search(query, k * 2));
+            self.filter_hot_knn_results_to_canonical(query, self.hot_tier.knn_search(query, k * 2));
 
         debug!(
             "Hot tier search returned {} results (requested {})",
@@ -1470,7 +1470,7 @@ impl TieredEngine {
         let hot_results: Vec<Vec<(u64, f32)>> = miss_queries
             .iter()
             .map(|query| {
-                self.filter_hot_knn_results_to_canonical(self.hot_tier.knn_search(query, k * 2))
+                self.filter_hot_knn_results_to_canonical(query, self.hot_tier.knn_search(query, k * 2))
             })
             .collect();
 
@@ -1603,10 +1603,14 @@ impl TieredEngine {
         final_results
     }
 
-    fn filter_hot_knn_results_to_canonical(&self, hot_results: Vec<(u64, f32)>) -> Vec<(u64, f32)> {
-        hot_results
+    fn filter_hot_knn_results_to_canonical(
+        &self,
+        query: &[f32],
+        hot_results: Vec<(u64, f32)>,
+    ) -> Vec<(u64, f32)> {
+        let mut canonical: Vec<(u64, f32)> = hot_results
             .into_iter()
-            .filter_map(|(doc_id, distance)| {
+            .filter_map(|(doc_id, _scan_distance)| {
                 let Some((hot_embedding, hot_coherence)) =
                     self.hot_tier.peek_with_coherence(doc_id)
                 else {
@@ -1622,7 +1626,14 @@ impl TieredEngine {
                     hot_coherence,
                     "hot-tier k-NN candidate",
                 ) {
-                    CanonicalVectorState::Match => Some((doc_id, distance)),
+                    // The mirror entry validated here may be newer than the one the scan saw
+                    // (an overwrite can land in between): report the distance of the vector
+                    // that was actually checked against the canonical token, never the
+                    // scan-time distance of a version that has since been replaced.
+                    CanonicalVectorState::Match => {
+                        let distance = self.hot_tier.distance_to_embedding(query, &hot_embedding);
+                        distance.is_finite().then_some((doc_id, distance))
+                    }
                     CanonicalVectorState::TokenMismatch | CanonicalVectorState::LocalCorruption => {
                         self.discard_stale_hot_mirror(doc_id, "hot-tier k-NN candidate");
                         None
@@ -1630,7 +1641,9 @@ impl TieredEngine {
                     CanonicalVectorState::Missing => None,
                 }
             })
-            .collect()
+            .collect();
+        canonical.sort_by(|a, b| a.1.total_cmp(&b.1).then_with(|| a.0.cmp(&b.0)));
+        canonical
     }
 
     fn filter_search_results_to_canonical(
@@ -1940,7 +1953,7 @@ impl TieredEngine {
                     .await
                     {
                         Ok(Ok(hot)) => {
-                            hot_results = self.filter_hot_knn_results_to_canonical(hot);
+                            hot_results = self.filter_hot_knn_results_to_canonical(&normalized_query, hot);
                             self.hot_tier_circuit_breaker.record_success();
                         }
                         Ok(Err(e)) => {
